@@ -191,7 +191,7 @@ class Samples(Job):
         ca, cb, same = self.PAIRS[i]
         w = World()
         with w:
-            a, b = Client(w, "A"), Client(w, "B")
+            a, b = Client(w, "A"), Client(w, "B", delegated=False)      # one delegate-API side, one Deferred-API side
             a.open()
             b.open()
             if order == 0:
@@ -210,6 +210,18 @@ class Samples(Job):
             a.api("send_message", b"x")
             b.api("send_message", b"")
             w.settle()
+            # derive_key(purpose, n): identical on both sides for every purpose (also one that is not in NFC form), different for different purposes
+            self._dk = None
+            if same:
+                import unicodedata
+                dk = {}
+                for side in (a, b):
+                    for p in ("p", "cafe\u0301", "caf\u00e9", "\u2126", "q"):
+                        try:
+                            dk[(side.name, p)] = side.w.derive_key(p, 16)
+                        except Exception as e:
+                            dk[(side.name, p)] = type(e).__name__
+                self._dk = dk
             a.api("close")
             b.api("close")
             w.settle()
@@ -220,6 +232,15 @@ class Samples(Job):
         agreed = bool(evs(a, "verifier")) and bool(evs(b, "verifier")) and evs(a, "verifier") == evs(b, "verifier")
         if agreed != same:
             return "codes %r / %r: agreement=%r, expected %r" % (self.PAIRS[i][0], self.PAIRS[i][1], agreed, same)
+        dk = getattr(self, "_dk", None)
+        if same and dk:
+            for p in ("p", "cafe\u0301", "caf\u00e9", "\u2126", "q"):
+                if dk[("A", p)] != dk[("B", p)] or not isinstance(dk[("A", p)], bytes):
+                    return "derive_key(%r, 16) differs between the two sides (%r vs %r)" % (p, dk[("A", p)], dk[("B", p)])
+            if dk[("A", "cafe\u0301")] != dk[("A", "caf\u00e9")]:
+                return "derive_key gives different bytes for two spellings of one purpose that are equal after NFC"
+            if dk[("A", "p")] == dk[("A", "q")]:
+                return "derive_key gives the same bytes for different purposes"
         if not same and (evs(a, "message") or evs(b, "message") or evs(a, "versions") or evs(b, "versions")):
             return "codes %r / %r differ but data was delivered" % self.PAIRS[i][:2]
         return None
